@@ -71,6 +71,9 @@ func verifC03Step(op int) {
 	writes0 := ghostCount("disk.write")
 	d := verifDB(k, &verifSink{})
 	name := nondetString("name")
+	// the Go API takes any string: the name of this call may be one that is not valid UTF-8 (names already stored are
+	// well-formed: they came through earlier calls, which this step covers inductively)
+	illFormedIf(name, nondetBool("name.is.not.valid.utf8"))
 	ver := api.SecretVersion(nondetU32("version"))
 	val := nondetSeq("val")
 	pre := snapshot(k.secrets)
